@@ -458,6 +458,33 @@ let check_tokens (cfg : econfig) (ops : eop list) (tr : tok list) : unit =
     && not (List.exists (fun (_, _, _, _, live) -> !live) !timers) in
 
   (* ---------------- C01: prefix of the failure-free history; equal to it at quiescence ---------------- *)
+  (* ---------------- C10 / C07: connector events — every event is handled (connector function returned nil) by exactly one shard of
+     its connector: all successful handlings come from the shard that owns int64(fnv64(ID)), and at quiescence there is one ---------------- *)
+  if on "C10" || on "C07" then begin
+    let tag = if on "C10" then "C10" else "C07" in
+    let handled = Hashtbl.create 16 in   (* (cid, event id) -> units that handled it successfully *)
+    List.iteri (fun n seg ->
+      match (try List.nth ops n with _ -> OAdvance Z0) with
+      | OStep (_, (EConn (cid, i, tot) as u), _) ->
+        List.iter (function
+          | TUser (UFConn _, view, _, _, UOk) ->
+            let key = (cid, view.r_status) in
+            Hashtbl.replace handled key (u :: (try Hashtbl.find handled key with Not_found -> []));
+            if shard_skip i tot view.r_status then
+              bad tag "connector %d: shard %d of %d handled event %s, which belongs to another shard" (ni cid) (zi i) (zi tot) (string_of_z view.r_status)
+          | _ -> ()) seg
+      | _ -> ()) segs;
+    Hashtbl.iter (fun (cid, id) us ->
+      match List.sort_uniq compare us with
+      | _ :: _ :: _ -> bad tag "connector %d: event %s was handled by more than one shard" (ni cid) (string_of_z id)
+      | _ -> ()) handled;
+    if quiescent then
+      List.iter (function
+        | OConnSend (cid, id, _) ->
+          if List.exists (fun (k : conncfg) -> k.cn_id = cid) cfg.ec_conns && not (Hashtbl.mem handled (cid, id)) then
+            bad tag "connector %d: the system is quiescent but event %s was handled by no shard" (ni cid) (string_of_z id)
+        | _ -> ()) ops
+  end;
   (* ---------------- C08 (resume continues) / C01 (not stranded), in token form: at quiescence every run that is Initiated or
      Running at a status with a step has had its step function invoked on its current version ---------------- *)
   if (on "C08" || on "C01") && quiescent then begin
@@ -484,6 +511,7 @@ let check_tokens (cfg : econfig) (ops : eop list) (tr : tok list) : unit =
       | OStep (i, u, _) -> Some (OStep (i, u, []))
       | OAdvance d -> Some (OAdvance d)
       | OSched (i, f, v) -> Some (OSched (i, f, v))
+      | OConnSend (c, i, f) -> Some (OConnSend (c, i, f))
       | OCrash _ | OLose _ | ORewind _ | ODup _ -> None) ops in
     let (wi, ti) = run_ops cfg ideal_ops in
     (* runs are identified by (foreign ID, k-th successful trigger of that foreign ID) in both executions *)
